@@ -163,9 +163,9 @@ V("C17", "cluster_threshold ignored", "R17.6", (CLS, "            system, self.c
 V("C17", "twin: explicit else for 3D", "silent", (CLS, "        elif dimensionality == 3:\n            classification = Class3D(input_system)", "        else:\n            classification = Class3D(input_system)"))
 
 # ------------------------------------------------------------------------------------------ C05
-V("C05", "transpose dropped when applying the normalizer", "R05.3", (SYM, "transformed_positions = np.dot(old_pos, best_transformation_matrix.T)", "transformed_positions = np.dot(old_pos, best_transformation_matrix)"))
+V("C06", "transpose dropped when applying the normalizer", "R06.8", (SYM, "transformed_positions = np.dot(old_pos, best_transformation_matrix.T)", "transformed_positions = np.dot(old_pos, best_transformation_matrix)"))
 V("C05", "twin: column-vector form", "silent", (SYM, "transformed_positions = np.dot(old_pos, best_transformation_matrix.T)", "transformed_positions = np.dot(best_transformation_matrix, old_pos.T).T"))
-V("C05", "homogeneous coordinate is 0", "R05.3", (SYM, "old_pos[:, 3] = 1", "old_pos[:, 3] = 0"))
+V("C07", "homogeneous coordinate is 0", "R07.6", (SYM, "old_pos[:, 3] = 1", "old_pos[:, 3] = 0"))
 V("C05", "result not wrapped", "R05.3", (SYM, "wrapped_pos = matid.geometry.get_wrapped_positions(transformed_positions)", "wrapped_pos = transformed_positions"))
 V("C05", "positions set on the input object", "R05.3", (SYM, "        # Apply the best transform\n        new_system = system.copy()", "        # Apply the best transform\n        new_system = system"))
 V("C05", "improper normalizer added to chiral group 16", "R05.1",
@@ -270,3 +270,49 @@ V("C01", "index collection as a list with the seed prepended", "R01.12", (SBC, "
 V("C01", "working copy not wrapped", "R01.13", (SBC, "        # Positions are wrapped\n        system_copy.wrap()\n", "        # Positions are wrapped\n"))
 V("C01", "wrap after the distances", "R01.13", (SBC, "        # Positions are wrapped\n        system_copy.wrap()\n\n        atomic_numbers = system.get_atomic_numbers()\n        radii = matid.geometry.get_radii(radii, atomic_numbers)\n\n        # Calculate the distances here once if they have not been provided.\n        distances = matid.geometry.get_distances(system_copy, radii)\n",
                                                 "        atomic_numbers = system.get_atomic_numbers()\n        radii = matid.geometry.get_radii(radii, atomic_numbers)\n\n        # Calculate the distances here once if they have not been provided.\n        distances = matid.geometry.get_distances(system_copy, radii)\n\n        # Positions are wrapped\n        system_copy.wrap()\n"))
+
+V("C13", "sub-matrix from the raw distances", "R13.2", (CLU, "self._distance_matrix_radii_mic = self._distances.dist_matrix_radii_mic[", "self._distance_matrix_radii_mic = self._distances.dist_matrix_mic["))
+V("C13", "atoms in sorted order", "R13.4", (CLU, "        return self._system[self.indices]", "        return self._system[sorted(self.indices)]"))
+V("C13", "generator kept between calls", "R13.5", (SBC, "        self.rng = np.random.default_rng(seed)\n", "        if not hasattr(self, \"rng\"):\n            self.rng = np.random.default_rng(seed)\n"))
+V("C01", "generator kept between calls", "R01.2", (SBC, "        self.rng = np.random.default_rng(seed)\n", "        if not hasattr(self, \"rng\"):\n            self.rng = np.random.default_rng(seed)\n"))
+V("C01", "enlargement only when the extent exceeds the cell", "R01.14", (SBC, "if max_pos > 1 or min_pos < 0:", "if max_pos - min_pos > 1:"))
+V("C01", "twin: enlargement test written with the bounds swapped", "silent", (SBC, "if max_pos > 1 or min_pos < 0:", "if min_pos < 0 or max_pos > 1:"))
+V("C09", "wrapper caps the cutoff", "R09.4", (GEO, "    if cell is None:\n        cell = np.eye(3)\n", "    if cell is None:\n        cell = np.eye(3)\n    cutoff = min(cutoff, 0.5 * np.linalg.norm(np.sum(cell, axis=0)))\n"))
+V("C09", "early-out before the component test", "R09.3", (GEO, "    if n_clusters_1x > 1:\n        dim = None\n    else:\n        # 2x2x2 system\n        n_pbc = np.sum(pbc)\n", "    n_pbc = np.sum(pbc)\n    if n_pbc == 0:\n        dim = 0\n    elif n_clusters_1x > 1:\n        dim = None\n    else:\n        # 2x2x2 system\n"))
+V("C12", "A centring sent to the C matrix", "R12.1", (SYM, "        primitive_transformations = {\n            \"A\": np.array(", "        if centring in [\"A\", \"B\"]:\n            centring = \"C\"\n\n        primitive_transformations = {\n            \"A\": np.array("))
+V("C12", "inverse permutation through a lookup table", "R12.4", (SYM, "        new_wyckoffs = []\n        for old_wyckoff in spglib_wyckoffs:\n            new_wyckoff = permutations[old_wyckoff]\n            new_wyckoffs.append(new_wyckoff)\n\n        return np.array(new_wyckoffs)",
+   "        lookup = {letter: i for i, letter in enumerate(permutations.values())}\n        letters = np.array(list(permutations.keys()))\n        indices = [lookup[old_wyckoff] for old_wyckoff in spglib_wyckoffs]\n\n        return letters[indices]"))
+V("C12", "twin: comprehension instead of the loop", "silent", (SYM, "        new_wyckoffs = []\n        for old_wyckoff in spglib_wyckoffs:\n            new_wyckoff = permutations[old_wyckoff]\n            new_wyckoffs.append(new_wyckoff)\n\n        return np.array(new_wyckoffs)",
+   "        new_wyckoffs = [permutations[old_wyckoff] for old_wyckoff in spglib_wyckoffs]\n\n        return np.array(new_wyckoffs)"))
+V("C14", "side-centring merge by explicit symbols", "C14.getters", (SYM, "        if bravais_lattice[1] in [\"A\", \"B\", \"C\"]:", "        if bravais_lattice in (\"mC\", \"oC\", \"oA\"):"))
+V("C14", "twin: merge written with a set", "silent", (SYM, "        if bravais_lattice[1] in [\"A\", \"B\", \"C\"]:", "        if bravais_lattice[1] in {\"A\", \"B\", \"C\"}:"))
+V("C14", "translation added before the rotation", "C14.apply", (SYM, "            transformed_positions = np.dot(old_pos, best_transformation_matrix.T)", "            old_pos[:, 0:3] += best_transformation_matrix[0:3, 3]\n            transformed_positions = np.dot(old_pos, best_transformation_matrix.T)"))
+V("C05", "twin: block form R x + t", "silent", (SYM, "            n_pos = len(system)\n            old_pos = np.empty((n_pos, 4))\n            old_pos[:, 3] = 1\n            old_pos[:, 0:3] = system.get_scaled_positions()\n", "            rotation = best_transformation_matrix[0:3, 0:3]\n            translation = best_transformation_matrix[0:3, 3]\n            old_pos = system.get_scaled_positions()\n"),
+  (SYM, "            transformed_positions = np.dot(old_pos, best_transformation_matrix.T)\n\n            # Get rid of the extra dimension of the homogeneous coordinates\n            transformed_positions = transformed_positions[:, 0:3]\n", "            transformed_positions = np.dot(old_pos, rotation.T) + translation\n"))
+V("C14", "block form with the translation rotated", "C14.apply", (SYM, "            n_pos = len(system)\n            old_pos = np.empty((n_pos, 4))\n            old_pos[:, 3] = 1\n            old_pos[:, 0:3] = system.get_scaled_positions()\n", "            rotation = best_transformation_matrix[0:3, 0:3]\n            translation = best_transformation_matrix[0:3, 3]\n            old_pos = system.get_scaled_positions()\n"),
+  (SYM, "            transformed_positions = np.dot(old_pos, best_transformation_matrix.T)\n\n            # Get rid of the extra dimension of the homogeneous coordinates\n            transformed_positions = transformed_positions[:, 0:3]\n", "            transformed_positions = np.dot(old_pos + translation, rotation.T)\n"))
+V("C17", "tolerance scaled in place", "R17.5", (CLS, "                self.abs_pos_tol = np.array(self.pos_tol) * global_min_dist", "                self.abs_pos_tol = np.asarray(self.pos_tol, dtype=float)\n                self.abs_pos_tol *= global_min_dist"))
+V("C17", "raw distance matrix handed to get_dimensionality", "R17.6", (CLS, "system, self.cluster_threshold, distances.dist_matrix_radii_mic", "system, self.cluster_threshold, distances.dist_matrix_mic"))
+V("C19", "whole-structure fallback", "R19.1", (GEO, "            radii = np.array(\n                [\n                    vdw_radii[i] if not np.isnan(vdw_radii[i]) else covalent_radii[i]\n                    for i in range(len(vdw_radii))\n                ]\n            )\n", "            radii = vdw_radii\n            if np.isnan(radii[atomic_numbers]).any():\n                radii = covalent_radii\n"))
+V("C19", "custom array of table length re-indexed", "R19.3", (GEO, "        radii = radii[atomic_numbers]\n    return radii", "        radii = radii[atomic_numbers]\n    elif len(radii) == len(covalent_radii):\n        radii = radii[atomic_numbers]\n    return radii"))
+V("C16", "substitution state carried between positions", "R16.1", (GEO, "        match = None\n        substitution = None\n        copy_index = None\n        displacement = None\n        cell_list_result = cell_list.get_neighbours_for_position(\n            position[0], position[1], position[2]\n        )\n        indices = cell_list_result.indices_original\n        if len(indices) > 0:\n            distances = cell_list_result.distances\n            factors",
+                                                                  "        match = None\n        copy_index = None\n        displacement = None\n        cell_list_result = cell_list.get_neighbours_for_position(\n            position[0], position[1], position[2]\n        )\n        indices = cell_list_result.indices_original\n        if len(indices) > 0:\n            distances = cell_list_result.distances\n            factors"),
+  (GEO, "    vacancies = []\n    cell = system.get_cell()\n\n    # The already pre-computed", "    vacancies = []\n    cell = system.get_cell()\n    substitution = None\n\n    # The already pre-computed"))
+V("C16", "cell list built from wrapped positions", "R16.4", (GEO, "    return matid.ext.get_cell_list(positions, cell, pbc, extension, cutoff)", "    positions = ase.geometry.wrap_positions(positions, cell, pbc)\n    return matid.ext.get_cell_list(positions, cell, pbc, extension, cutoff)"))
+V("C08", "verification without wrapping the generated positions", "R08.4", (SYM, "                                    test_pos, sorted_pos, cell, precision\n", "                                    test_pos, sorted_pos, cell, precision, wrap=False\n"))
+V("C08", "first non-zero component", "R08.2", (SYM, "                        for idx, var in variable_map.items():\n                            for icomp in range(3):\n                                if M[idx][icomp] == 1:\n                                    W[idx] = R[icomp] - C[icomp]\n                                    break\n",
+                                               "                        for idx in variable_map:\n                            icomp = np.flatnonzero(M[idx])[0]\n                            W[idx] = R[icomp] - C[icomp]\n"))
+V("C08", "twin: first non-zero component with division by the coefficient", "silent", (SYM, "                        for idx, var in variable_map.items():\n                            for icomp in range(3):\n                                if M[idx][icomp] == 1:\n                                    W[idx] = R[icomp] - C[icomp]\n                                    break\n",
+                                               "                        for idx in variable_map:\n                            icomp = np.flatnonzero(M[idx])[0]\n                            W[idx] = (R[icomp] - C[icomp]) / M[idx][icomp]\n"))
+V("C11", "transposed transformation matrix scanned", "R11.2", (SYM, "for i_axis, axis in enumerate(transformation_matrix):", "for i_axis, axis in enumerate(np.transpose(transformation_matrix)):"))
+V("C11", "vacuum of twice the thickness", "R11.3", (SYM, "5, 3 * matid.geometry.get_thickness(symmetry_broken_system, i_pbc)", "5, 2 * matid.geometry.get_thickness(symmetry_broken_system, i_pbc)"))
+V("C11", "centre of mass of the non-periodic cell", "R11.2", (SYM, "            ideal_sys.set_pbc(True)  # Needed temprorarily for centering to work\n", ""))
+V("C06", "one permutation value typo in group 221", "R06.6", (TAB, "    221: [\n        {\n            \"permutations\": {\n                \"a\": \"b\",\n                \"b\": \"a\",\n                \"c\": \"d\",\n                \"d\": \"c\",", "    221: [\n        {\n            \"permutations\": {\n                \"a\": \"b\",\n                \"b\": \"a\",\n                \"c\": \"d\",\n                \"d\": \"d\","))
+V("C06", "unique labels used as indices", "R06.7", (SYM, "            _, indices = np.unique(mapping, return_index=True)\n            self._spglib_primitive_to_original_mapping = indices", "            indices = np.unique(mapping)\n            self._spglib_primitive_to_original_mapping = indices"))
+V("C07", "orbits of the input cell", "R07.4", (SYM, "        value = dataset.crystallographic_orbits", "        value = dataset.equivalent_atoms"))
+V("C20", "extent from wrapped coordinates", "R20.7", (GEO, "    pos_min_cart = matid.geometry.to_cartesian(basis, pos_min_rel)\n    pos_max_cart = matid.geometry.to_cartesian(basis, pos_max_rel)\n    c_real_cart = pos_max_cart - pos_min_cart\n    c_size = np.linalg.norm(c_real_cart)\n", "    c_size = get_thickness(system, axis)\n    c_real_cart = c_size * c_norm\n"))
+V("C20", "periodicity test hoisted out of the component loop", "R20.7", (GEO, "    for i_comp in range(3):\n        i_pbc = pbc[i_comp]\n", "    i_pbc = pbc.any()\n    for i_comp in range(3):\n"))
+
+V("C05", "twin for C05: transpose dropped (all tabulated rotations are symmetric: still a proper rigid motion)", "silent", (SYM, "transformed_positions = np.dot(old_pos, best_transformation_matrix.T)", "transformed_positions = np.dot(old_pos, best_transformation_matrix)"))
+V("C05", "left-handed cells negated before spglib", "R05.5", (SYM, "        angstrom_cell = self._analyzed_system.get_cell()\n", "        angstrom_cell = self._analyzed_system.get_cell()\n        if np.linalg.det(angstrom_cell) < 0:\n            angstrom_cell = -angstrom_cell\n"))
+V("C05", "coarse snapping when re-wrapping", "R05.6", (GEO, "def get_wrapped_positions(scaled_pos, precision=1e-5):", "def get_wrapped_positions(scaled_pos, precision=1e-2):"))
